@@ -13,7 +13,8 @@ class BAgent(mesa.Agent):
 
 
 class BM(mesa.Model):
-    """kwargs: n agents, stop (running=False once steps >= stop), ic/sc collect at construction / inside step,
+    """kwargs: n agents, stop (running=False once steps >= stop), ic/sc = how many times it collects at construction /
+    inside every step (between two collects at the same model.steps a model-level value and every agent change),
     ar agent reporters on/off, churn agents come and go, k a constant reported by name; other kwargs are ignored.
     Beside the DataCollector the model keeps its own log of what it showed at each collect (evaluated directly)."""
 
@@ -26,22 +27,30 @@ class BM(mesa.Model):
         self.n, self.stop, self.ic, self.sc = g("n", 2), g("stop", None), g("ic", 0), g("sc", 1)
         self.ar, self.churn, self.k = g("ar", 1), g("churn", 0), g("k", 0)
         self.log = []
+        self.t = 0
         areps = {"sv": lambda a: a.model.steps * 1000 + a.val, "val": "val"} if self.ar else None
         self.datacollector = DataCollector(
-            model_reporters={"Steps": lambda m: m.steps, "Sum": self.total, "K": "k"}, agent_reporters=areps)
+            model_reporters={"Steps": lambda m: m.steps, "Sum": self.total, "K": "k", "T": "t"}, agent_reporters=areps)
         for _ in range(self.n):
             BAgent(self, self.k)
         BM.INSTANCES.append(self)
-        if self.ic:
-            self._collect()
+        self._collects(self.ic)
 
     def total(self):
         return sum(a.val for a in self.agents)
 
     def _collect(self):
         agents = [(a.unique_id, {"sv": self.steps * 1000 + a.val, "val": a.val}) for a in self.agents] if self.ar else []
-        self.log.append((self.steps, {"Steps": self.steps, "Sum": self.total(), "K": self.k}, agents))
+        self.log.append((self.steps, {"Steps": self.steps, "Sum": self.total(), "K": self.k, "T": self.t}, agents))
         self.datacollector.collect(self)
+
+    def _collects(self, count):
+        for j in range(count):
+            if j > 0:   # the model moves on between two collections made at the same model.steps
+                self.t += self.steps + 1
+                for a in self.agents:
+                    a.val += 1
+            self._collect()
 
     def step(self):
         self.agents.do("step")
@@ -52,5 +61,4 @@ class BM(mesa.Model):
                 next(iter(self.agents)).remove()
         if self.stop is not None and self.steps >= self.stop:
             self.running = False
-        if self.sc:
-            self._collect()
+        self._collects(self.sc)
